@@ -28,6 +28,11 @@ CLAIMED = {
         ref="DESIGN.md section 4 C12",
         note="Empty-custom chain only; 13 dispatch-family programs with regular names; the label used when none is set is mirrored, not asserted",
     ),
+    "C06": dict(
+        text="Run-time clause by simulation: twin worlds over 30 override programs (none, each single kind, all six, seeded subsets; migrate handler present/absent; reply handler absent / replies feature / legacy). World 0 deploys, for every kind the SPEC says is generated, the generated entry_points::<kind> function and for overridden kinds the user's function (ContractWrapper); world 1 is the reference deployment of the same program. The same seeded raw history (spec-built documents for generated kinds, the override's own documents for overridden kinds, sub-messages with hand-made reply requests, admin and non-admin migrations, scripted failures) runs on both; after every step outcomes, every delivery / entry / return, storage, contract info and balances must agree, an overridden kind must reach only the user's function, and the C02 monitor must hold for every generated kind in both worlds. Existence / absence clause by build gate: the world links entry_points::<kind> for every kind that must exist, and a glob-import ambiguity probe fails the build when an entry point exists that must not. Exploration level.",
+        ref="DESIGN.md section 4 C06",
+        note="generic contracts' entry points are exercised in family f1 (C02); the build gate is labelled as such in evidence when it fires",
+    ),
     "C07": dict(
         text="Seeded simulation of worlds of reply-table contracts (every coverage shape, declaration order, payload signature; 12 programs) calling each other through sub-messages whose callee is told to succeed or fail; gas_used/events/msg_responses injected at the link; hand-made sub-messages with unknown ids and uncovered outcomes. Per reply delivery the monitor requires exactly the declared method (or the pass-through / unknown-id behaviour) with the delivered context values. Exploration: a clean batch is evidence over the sampled histories, not proof.",
         ref="DESIGN.md section 4 C07",
@@ -58,7 +63,6 @@ NA = {
 }
 
 PENDING = {
-    "C06": "check under construction in this session (entry-point twin world); not claimed until it runs clean",
     "C10": "check under construction in this session (remote helpers across contracts); not claimed until it runs clean",
     "C11": "check under construction in this session (custom chain bridge); not claimed until it runs clean",
     "C20": "check under construction in this session (stored remote handle across migrations); not claimed until it runs clean",
